@@ -786,6 +786,17 @@ theorem in_scope_sound (o₁ o₂ w₁ w₂ r : Value) :
     simp only [Bool.and_eq_true] at hs
     exact sound_mul_partial o₁ o₂ w₁ w₂ r k1 k2 f1 f2 g1 g2 c1 c2 hs.1.1 hs.1.2 hs.2 ho
 
+/-- the same for Length (`judge.c01.scope1 length`) -/
+theorem in_scope_length_sound (o w r : Value) (h : D01.inScopeLength o w = true) (ho : Value.length o = .ok r) :
+    ∃ r', Value.length w = .ok r' ∧ Covers r' r = true := by
+  simp only [D01.inScopeLength, Bool.and_eq_true, Bool.or_eq_true, Bool.not_eq_true'] at h
+  obtain ⟨⟨⟨⟨⟨k, f⟩, g⟩, d⟩, c⟩, cx⟩ := h
+  rw [D01.setCountOK_eq] at c
+  refine sound_length_partial o w r k f g (fun ht => ?_) c cx ho
+  rcases d with d | d
+  · rw [ht] at d; simp [Ty.isDyn] at d
+  · exact d
+
 /-! ## Non-vacuity -/
 example : Weaken ⟨.number, .n (Num.ofInt 5)⟩ ⟨.number, .unk (.num .f (some ⟨Num.ofInt 5, true⟩) none)⟩ :=
   .inside (.toUnk (by
